@@ -1267,6 +1267,7 @@ func main() {
 	if *shardFlag < 0 {
 		parent(f, res)
 		_ = os.RemoveAll(runRoot)
+		_ = os.Remove(scratchRoot) // only if no other run is using it
 		finish(f, res)
 	}
 
